@@ -90,12 +90,12 @@ theorem rotation_compose (c s c' s' : K) :
 theorem retarder_unitary [StarRing K] (u c s : K) (hc : star c = c) (hs : star s = s) (h : c ^ 2 + s ^ 2 = 1)
     (hu : u * star u = 1) :
     (retarder u c s).mul (conjT (retarder u c s)) = M22.one ∧ (conjT (retarder u c s)).mul (retarder u c s) = M22.one := by
-  rw [gen_retarder]
+  simp only [retarder, gen_rot]
   constructor
   · apply sandwich_unitary c s hc hs h
-    apply M22.ext' <;> simp [M22.mul, conjT, M22.one, hu]
+    apply M22.ext' <;> simp [M22.mul, conjT, M22.one, M22.set, M22.zero, hu]
   · apply sandwich_unitary' c s hc hs h
-    apply M22.ext' <;> simp [M22.mul, conjT, M22.one, mul_comm (star u) u, hu]
+    apply M22.ext' <;> simp [M22.mul, conjT, M22.one, M22.set, M22.zero, mul_comm (star u) u, hu]
 
 /-- the vector vortex retarder is unitary for every charge, azimuth, retardance and rotation -/
 theorem vortex_unitary [StarRing K] (mI ch sh c s cr sr : K) (hI : mI ^ 2 = -1) (hIs : star mI = -mI)
@@ -103,11 +103,11 @@ theorem vortex_unitary [StarRing K] (mI ch sh c s cr sr : K) (hI : mI ^ 2 = -1) 
     (hd : ch ^ 2 + sh ^ 2 = 1) (ht : c ^ 2 + s ^ 2 = 1) (hr : cr ^ 2 + sr ^ 2 = 1) :
     (vortex mI ch sh c s cr sr).mul (conjT (vortex mI ch sh c s cr sr)) = M22.one ∧
     (conjT (vortex mI ch sh c s cr sr)).mul (vortex mI ch sh c s cr sr) = M22.one := by
-  rw [gen_vortex]
+  simp only [vortex, gen_rot]
   constructor
   · apply sandwich_unitary cr sr hcr hsr hr
     apply M22.ext' <;>
-      simp only [M22.mul, M22.add, M22.smul, conjT, M22.one, ofInt_eq, star_add, star_mul', star_neg, hIs, hch, hsh, hc, hs, Int.cast_zero, Int.cast_one, star_one,
+      simp only [M22.mul, M22.add, M22.smul, M22.set, M22.zero, conjT, M22.one, ofInt_eq, star_add, star_mul', star_neg, hIs, hch, hsh, hc, hs, Int.cast_zero, Int.cast_one, star_one,
         star_zero] <;> push_cast
     · linear_combination sh ^ 2 * ht + hd - ch ^ 2 * hI
     · ring
@@ -115,7 +115,7 @@ theorem vortex_unitary [StarRing K] (mI ch sh c s cr sr : K) (hI : mI ^ 2 = -1) 
     · linear_combination sh ^ 2 * ht + hd - ch ^ 2 * hI
   · apply sandwich_unitary' cr sr hcr hsr hr
     apply M22.ext' <;>
-      simp only [M22.mul, M22.add, M22.smul, conjT, M22.one, ofInt_eq, star_add, star_mul', star_neg, hIs, hch, hsh, hc, hs, Int.cast_zero, Int.cast_one, star_one,
+      simp only [M22.mul, M22.add, M22.smul, M22.set, M22.zero, conjT, M22.one, ofInt_eq, star_add, star_mul', star_neg, hIs, hch, hsh, hc, hs, Int.cast_zero, Int.cast_one, star_one,
         star_zero] <;> push_cast
     · linear_combination sh ^ 2 * ht + hd - ch ^ 2 * hI
     · ring
